@@ -16,39 +16,28 @@ Proof.
 Qed.
 
 (* ------------------------------------------------------------------ comparisons are total *)
+Ltac pf_cases lib := repeat match goal with |- context [parse_float lib ?s] => destruct (parse_float lib s) end.
+
 Lemma eq_body_bool : forall lib n l r, exists b, eq_body lib n l r = Val (VBool (if n then negb b else b)).
 Proof.
   intros lib n l r. unfold eq_body.
-  destruct l.
-  - destruct r; try (exists false; destruct n; reflexivity). exists true; destruct n; reflexivity.
-  - destruct r; cbn; eexists; reflexivity.
-  - destruct r; cbn; try (eexists; reflexivity); exists false; destruct n; reflexivity.
-  - destruct r; cbn; try (eexists; reflexivity); try (exists false; destruct n; reflexivity).
-    destruct (parse_float lib s); [eexists; reflexivity | exists false; destruct n; reflexivity].
-  - eexists; reflexivity.
-  - exists false; destruct n; reflexivity.
-  - exists false; destruct n; reflexivity.
-  - exists false; destruct n; reflexivity.
+  destruct l; destruct r; cbn; pf_cases lib;
+    first [ eexists; reflexivity
+          | exists false; destruct n; reflexivity
+          | exists true; destruct n; reflexivity ].
 Qed.
 
 Lemma eq_ne_compl_l : forall lib same l r, exists b,
   eq lib same l r = Val (VBool b) /\ ne lib same l r = Val (VBool (negb b)).
 Proof.
   intros lib same l r; unfold eq, ne.
-  destruct (same && negb (is_nan_value l)).
+  destruct ((same || both_nil l r) && negb (is_nan_value l)).
   - exists true; split; reflexivity.
-  - (* the two bodies differ only in the `ne` flag *)
-    unfold eq_body.
-    destruct l.
-    + destruct r; try (exists false; split; reflexivity). exists true; split; reflexivity.
-    + destruct r; cbn; eexists; split; reflexivity.
-    + destruct r; cbn; try (eexists; split; reflexivity).
-    + destruct r; cbn; try (eexists; split; reflexivity).
-      destruct (parse_float lib s); eexists; split; reflexivity.
-    + eexists; split; reflexivity.
-    + exists false; split; reflexivity.
-    + exists false; split; reflexivity.
-    + exists false; split; reflexivity.
+  - unfold eq_body.
+    destruct l; destruct r; cbn; pf_cases lib;
+      first [ eexists; split; reflexivity
+            | exists false; split; reflexivity
+            | exists true; split; reflexivity ].
 Qed.
 
 Lemma seq_sne_compl_l : forall l r, exists b, seq l r = Val (VBool b) /\ sne l r = Val (VBool (negb b)).
@@ -56,15 +45,8 @@ Proof. intros l r; exists (strict_equal l r); split; reflexivity. Qed.
 
 Lemma rel_bool_l : forall lib o l r, exists b, rel lib o l r = Val (VBool b).
 Proof.
-  intros lib o l r; unfold rel. destruct l.
-  - destruct o, r; eexists; reflexivity.
-  - destruct r; eexists; reflexivity.
-  - destruct r; cbn; eexists; reflexivity.
-  - destruct r; cbn; try (eexists; reflexivity). destruct (parse_float lib s); eexists; reflexivity.
-  - eexists; reflexivity.
-  - eexists; reflexivity.
-  - eexists; reflexivity.
-  - eexists; reflexivity.
+  intros lib o l r; unfold rel.
+  destruct l; destruct r; cbn; pf_cases lib; try (destruct o); eexists; reflexivity.
 Qed.
 
 (* ------------------------------------------------------------------ == symmetric off the known pairs *)
@@ -95,23 +77,51 @@ Proof.
   destruct (String.compare b a); simpl; congruence.
 Qed.
 
-Lemma cmp_lt_gt_partial_l : forall lib l r,
-  cmp_known (ty_of l) (ty_of r) = false ->
-  law_cmp (cmp l r) (rel lib RLt l r) (rel lib RGt l r) = true.
+(* within one dispatch (the left operand's type) < and > are exclusive *)
+Lemma rel_antisym : forall lib l r,
+  rel lib RLt l r = Val (VBool true) -> rel lib RGt l r = Val (VBool false).
 Proof.
-  intros lib l r Hk.
-  destruct l, r; cbn in Hk; try discriminate; cbn -[sign3]; try reflexivity.
-  - (* bool, bool *) destruct b, b0; reflexivity.
-  - (* int, int *) apply law_sign3. rewrite Z.ltb_lt, Z.gtb_ltb, Z.ltb_ge. lia.
-  - (* int, float *) apply law_sign3. apply flt_antisym.
-  - (* float, int *) apply law_sign3. apply flt_antisym.
-  - (* float, float *) apply law_sign3. apply flt_antisym.
-  - (* str, str *) apply law_sign3. apply str_lt_antisym.
+  intros lib l r; unfold rel.
+  destruct l; destruct r; cbn; pf_cases lib; try discriminate; try reflexivity;
+    intro H; injection H as H; do 2 f_equal;
+    first [ apply flt_antisym; exact H
+          | apply str_lt_antisym; exact H
+          | (rewrite Z.gtb_ltb; apply Z.ltb_ge; apply Z.ltb_lt in H; lia)
+          | (destruct b, b0; try reflexivity; discriminate) ].
+Qed.
+Lemma rel_nil : forall lib o l r, is_nil l || is_nil r = true -> rel lib o l r = Val (VBool false).
+Proof.
+  intros lib o l r H. unfold rel.
+  destruct l; destruct r; try discriminate; cbn; try reflexivity; destruct o; reflexivity.
+Qed.
+
+Lemma cmp_lt_gt_l : forall lib l r,
+  law_cmp (cmp lib l r) (rel lib RLt l r) (rel lib RGt l r) = true.
+Proof.
+  intros lib l r.
+  assert (Hgen : (if is_nil l || is_nil r then Val (VInt 0) else
+                  match rel lib RLt l r with
+                  | Val (VBool true) => Val (VInt (-1))
+                  | Val _ => match rel lib RGt l r with
+                             | Val (VBool true) => Val (VInt 1) | Val _ => Val (VInt 0) | o => o end
+                  | o => o end) = cmp lib l r \/ exists a b, l = VInt a /\ r = VInt b).
+  { destruct l; try (left; reflexivity). destruct r; try (left; reflexivity). right; eauto. }
+  destruct Hgen as [Hc | [a [b [-> ->]]]].
+  - rewrite <- Hc. destruct (is_nil l || is_nil r) eqn:En.
+    + rewrite !(rel_nil lib _ l r En). reflexivity.
+    + destruct (rel_bool_l lib RLt l r) as [x Hx]. destruct (rel_bool_l lib RGt l r) as [y Hy].
+      destruct x.
+      * rewrite (rel_antisym lib l r Hx), Hx. reflexivity.
+      * rewrite Hx, Hy. destruct y; reflexivity.
+  - cbn -[sign3]. apply law_sign3. rewrite Z.ltb_lt, Z.gtb_ltb, Z.ltb_ge. lia.
 Qed.
 
 (* ------------------------------------------------------------------ model = reference on D *)
-Lemma as_bool_truthy : forall v, as_bool v = Conv (ref_truthy v).
-Proof. destruct v; cbn; unfold fzero; try reflexivity. destruct items; reflexivity. Qed.
+Lemma as_bool_truthy : forall v, is_nil v = false -> as_bool v = Conv (ref_truthy v).
+Proof. destruct v; cbn; unfold fzero; try reflexivity; try discriminate. destruct items; reflexivity. Qed.
+(* operandTruthy computes the one truthiness for EVERY value, nil included *)
+Lemma opd_truthy_ref : forall v k, opd_truthy v k = k (ref_truthy v).
+Proof. destruct v; intro k; cbn; unfold fzero; try reflexivity. destruct items; reflexivity. Qed.
 
 Lemma z_eqb_cmp : forall a b, (a =? b) = is_c Eq (Some (a ?= b)).
 Proof. intros a b; destruct (Z.compare_spec a b); subst; simpl;
@@ -166,10 +176,12 @@ Qed.
 
 Lemma eq_ref_on_D : forall lib n same l r,
   (same_kind_scalar l r || (numeric l && numeric r)) = true -> (same = true -> l = r) ->
-  (if same && negb (is_nan_value l) then Val (VBool (negb n)) else eq_body lib n l r)
+  (if (same || both_nil l r) && negb (is_nan_value l) then Val (VBool (negb n)) else eq_body lib n l r)
   = rb (if n then negb (is_c Eq (ref_cmp l r)) else is_c Eq (ref_cmp l r)).
 Proof.
   intros lib n same l r HD Hs.
+  assert (Hbn : both_nil l r = false) by (destruct l; try reflexivity; discriminate).
+  rewrite Hbn, orb_false_r.
   destruct (same && negb (is_nan_value l)) eqn:E.
   - apply andb_true_iff in E. destruct E as [E1 E2]. specialize (Hs E1); subst r.
     apply negb_true_iff in E2.
@@ -221,17 +233,27 @@ Proof.
   - apply s_eqb_cmp.
 Qed.
 
-Lemma cmp_ref_on_D : forall l r,
-  (same_kind_scalar l r || (numeric l && numeric r)) = true ->
-  cmp l r = Val (VInt (match ref_cmp l r with Some Lt => -1 | Some Gt => 1 | _ => 0 end)).
+Lemma cmp_small : forall lib l r, exists z, cmp lib l r = Val (VInt z) /\ (z = -1 \/ z = 0 \/ z = 1).
 Proof.
-  intros l r HD; destruct l, r; try discriminate; cbn -[sign3 compare_floats]; try reflexivity.
-  - destruct b, b0; reflexivity.
-  - rewrite z_sign3_cmp. destruct (z ?= z0); reflexivity.
-  - rewrite f_sign3_cmp. reflexivity.
-  - rewrite f_sign3_cmp. reflexivity.
-  - rewrite f_sign3_cmp. reflexivity.
-  - rewrite s_sign3_cmp. destruct (String.compare s s0); reflexivity.
+  intros lib l r.
+  destruct (rel_bool_l lib RLt l r) as [x Hx]. destruct (rel_bool_l lib RGt l r) as [y Hy].
+  destruct l; destruct r; cbn [cmp is_nil orb];
+    try (eexists; split; [reflexivity|]; unfold sign3;
+         repeat match goal with |- context [if ?c then _ else _] => destruct c end; lia);
+    rewrite Hx; destruct x; try (eexists; split; [reflexivity|lia]);
+    rewrite Hy; destruct y; eexists; split; try reflexivity; lia.
+Qed.
+
+Lemma cmp_ref_on_D : forall lib l r,
+  (same_kind_scalar l r || (numeric l && numeric r)) = true ->
+  cmp lib l r = Val (VInt (match ref_cmp l r with Some Lt => -1 | Some Gt => 1 | _ => 0 end)).
+Proof.
+  intros lib l r HD.
+  pose proof (rel_ref_on_D lib RLt l r HD) as Hlt. pose proof (rel_ref_on_D lib RGt l r HD) as Hgt.
+  destruct l, r; try discriminate; cbn [cmp is_nil orb];
+    try (rewrite Hlt, Hgt; unfold rb; destruct (ref_cmp _ _) as [[| |]|]; reflexivity).
+  (* int, int *)
+  rewrite z_sign3_cmp. cbn. destruct (z ?= z0); reflexivity.
 Qed.
 
 Lemma pow_ref_on_D : forall lib l r, numeric l && numeric r = true -> wf l = true -> wf r = true ->
@@ -289,9 +311,9 @@ Proof.
   - rewrite (rel_ref_on_D lib RGt l r HD). reflexivity.
   - rewrite (rel_ref_on_D lib RGe l r HD). reflexivity.
   - apply cmp_ref_on_D; assumption.
-  - (* && *) unfold logic_and. rewrite !as_bool_truthy. unfold ref_binop, rb.
+  - (* && *) unfold logic_and. rewrite !opd_truthy_ref. unfold ref_binop, rb.
     destruct (ref_truthy l); reflexivity.
-  - (* || *) unfold logic_or. rewrite !as_bool_truthy. unfold ref_binop, rb.
+  - (* || *) unfold logic_or. rewrite !opd_truthy_ref. unfold ref_binop, rb.
     destruct (ref_truthy l); reflexivity.
   - (* . *) destruct l, r; try discriminate; reflexivity.
 Qed.
@@ -300,7 +322,7 @@ Lemma unop_is_ref_on_D_l : forall lib o v, inD1 o v = true -> unop_eval lib o v 
 Proof.
   intros lib o v HD; destruct o; cbn in HD.
   - destruct v; try discriminate; reflexivity.
-  - unfold unop_eval. rewrite as_bool_truthy. reflexivity.
+  - unfold unop_eval. rewrite as_bool_truthy by (destruct v; try discriminate; reflexivity). reflexivity.
   - destruct v; try discriminate; cbn; unfold Z.lnot; do 2 f_equal; lia.
 Qed.
 
@@ -369,9 +391,9 @@ Proof.
   - destruct (rel_bool_l lib RLe l r) as [b H]. rewrite H. reflexivity.
   - destruct (rel_bool_l lib RGt l r) as [b H]. rewrite H. reflexivity.
   - destruct (rel_bool_l lib RGe l r) as [b H]. rewrite H. reflexivity.
-  - unfold cmp. destruct l, r; reflexivity.
-  - unfold logic_and. rewrite !as_bool_truthy. destruct (ref_truthy l); reflexivity.
-  - unfold logic_or. rewrite !as_bool_truthy. destruct (ref_truthy l); reflexivity.
+  - destruct (cmp_small lib l r) as [z [Hz _]]. rewrite Hz. reflexivity.
+  - unfold logic_and. rewrite !opd_truthy_ref. destruct (ref_truthy l); reflexivity.
+  - unfold logic_or. rewrite !opd_truthy_ref. destruct (ref_truthy l); reflexivity.
   - reflexivity.
 Qed.
 
@@ -379,7 +401,7 @@ Lemma acceptable_unop_l : forall lib o v, acceptable (unop_eval lib o v) = true.
 Proof.
   intros lib o v; destruct o; unfold unop_eval.
   - destruct v; cbn; crush_matches; reflexivity.
-  - rewrite as_bool_truthy. reflexivity.
+  - destruct v; cbn; unfold fzero; try reflexivity.
   - destruct v; reflexivity.
 Qed.
 
@@ -482,10 +504,10 @@ Proof.
   - destruct (rel_bool_l lib RLe l r) as [b Hb]. rewrite Hb in H. discriminate.
   - destruct (rel_bool_l lib RGt l r) as [b Hb]. rewrite Hb in H. discriminate.
   - destruct (rel_bool_l lib RGe l r) as [b Hb]. rewrite Hb in H. discriminate.
-  - unfold cmp, compare_values, compare_floats in H.
-    destruct l, r; injection H as <-; try reflexivity; try apply sign3_range.
-  - unfold logic_and in H. rewrite !as_bool_truthy in H. destruct (ref_truthy l); discriminate.
-  - unfold logic_or in H. rewrite !as_bool_truthy in H. destruct (ref_truthy l); discriminate.
+  - destruct (cmp_small lib l r) as [z' [Hz Hs]]. rewrite Hz in H. injection H as <-.
+    destruct Hs as [-> | [-> | ->]]; reflexivity.
+  - unfold logic_and in H. rewrite !opd_truthy_ref in H. destruct (ref_truthy l); discriminate.
+  - unfold logic_or in H. rewrite !opd_truthy_ref in H. destruct (ref_truthy l); discriminate.
   - discriminate.
 Qed.
 
@@ -493,6 +515,15 @@ Qed.
 Lemma eq_sym_refuted_l : forall lib,
   eq lib false (VStr "1") (VInt 1) = Val (VBool true) /\ eq lib false (VInt 1) (VStr "1") = Val (VBool false).
 Proof. intro lib; split; reflexivity. Qed.
-Lemma cmp_lt_gt_refuted_l : forall lib,
-  cmp VNull (VInt 0) = Val (VInt (-1)) /\ rel lib RLt VNull (VInt 0) = Val (VBool false).
-Proof. intro lib; split; reflexivity. Qed.
+
+
+(* division by a zero divisor of ANY kind: whatever the divisor's numeric view is obtained from
+   (0, 0.0, -0.0, null, "0", "0.0", ...), and whatever the dividend *)
+Lemma div_zero_any_l : forall lib l r,
+  (forall f, as_float lib r = Conv f -> feq f fzero = true -> quo lib l r = Throw) /\
+  (as_int r = Conv 0 -> rem l r = Throw).
+Proof.
+  intros lib l r; split.
+  - intros f Hf Hz. unfold quo, opd_float. destruct l; try reflexivity; rewrite Hf, Hz; reflexivity.
+  - intros Hi. unfold rem, opd_int. destruct l; try reflexivity; cbn; rewrite Hi; reflexivity.
+Qed.
